@@ -71,6 +71,9 @@ Proof.
     + rewrite H in LP. apply (inpub_tail _ _ LP). discriminate.
     + (* take *) rewrite (Other p) by reflexivity. now apply LP.
     + (* deliver *) rewrite (Other p) by reflexivity. now apply LP.
+    + (* cancel *) now apply LP.
+    + (* skip *) rewrite H in LP. apply (inpub_tail _ _ LP). intros e t rem ->. cbn in H0. contradiction.
+    + (* defer *) rewrite H in LP. destruct LP as (? & ? & ? & []).
   - (* inner read locks *)
     intros y p Hin.
     assert (Keep : In p (c_rd (r_cs s y)) -> label_of_conn p l = false -> visiting (c_pc (r_cs s' p)) y).
@@ -140,6 +143,15 @@ Proof.
       apply Keep; [assumption | reflexivity].
     + assert (Hin0 : In p (c_rd (r_cs s y))) by (revert Hin; upd_y y; auto).
       apply Keep; [assumption | reflexivity].
+    + (* cancel *) now apply LR.
+    + (* skip *)
+      assert (Hin0 : In p (c_rd (r_cs s y))) by (now rewrite rd_upd_pc in Hin).
+      destruct (Nat.eq_dec p c) as [->|N]; [|apply Keep; [assumption | cbn; now apply Nat.eqb_neq]].
+      exfalso. eapply (Bad c); eauto. intros e t c' todo ->. cbn in H0. contradiction.
+    + (* defer *)
+      assert (Hin0 : In p (c_rd (r_cs s y))) by (revert Hin; upd_y y; auto).
+      destruct (Nat.eq_dec p c) as [->|N]; [|apply Keep; [assumption | cbn; now apply Nat.eqb_neq]].
+      exfalso. destruct (LR y c Hin0) as (e & t & todo & rest' & E). rewrite H in E. discriminate.
 Qed.
 
 (* ------------------------------------------------------------------ *)
